@@ -141,6 +141,8 @@ def main():
     tier = sys.argv[1] if len(sys.argv) > 1 else "quick"
     run = Run(PID, tier)
     cache = FnCache()
+    from harness.lie import prelude as _prelude
+    _prelude(run, report=("identity", "matrix"))
     if "--replay" in sys.argv:
         d = json.load(open(sys.argv[sys.argv.index("--replay") + 1]))
         tv = d["data"]["tv"]
